@@ -325,7 +325,7 @@ def judge(ctx, case, impl, c01s, hist):
 
 
 def stream(ctx, rng, base, cache_args, guarded):
-    n = ctx.n(12, 200)
+    n = ctx.n(12, 150)
     cases = []
     shared = smd = 0
     for _ in range(n):
